@@ -52,6 +52,11 @@ pub fn offer(w: &mut World, text: &TextRef, faults_: &[TokFault], reader: Bk, ar
         match backend(reader).keytext_ops(k, &d.text) {
             Out::Panic(p) => w.violate("C04", "panic", reader, &format!("keytext-{}", artifact.name()), "", format!("an operation on a parsed KeyText panicked for {:?}: {p}", truncate(&d.text, 80))),
             Out::Err(crate::backend::ErrKind::Payload(m)) if m.contains("harness") => w.violate("C08", "keytext-raw-roundtrip", reader, &format!("keytext-{}", artifact.name()), "", m),
+            // the unvalidated text layer knows nothing about key sizes, but it does know its header: a
+            // text of another version or another kind of artifact is not a key text of this kind
+            Out::Ok(_) if !literal && !changed && (family != reader.family() || origin_art.header() != artifact.header()) => {
+                w.violate("C10", "cross-accepted", reader, &format!("keytext-{}", artifact.name()), &format!("v{family}-{}", origin_art.name()), format!("KeyText parser of {} {} accepted the v{family} {} text {}", reader.name(), artifact.name(), origin_art.name(), truncate(&d.text, 80)));
+            }
             _ => {}
         }
     }
